@@ -378,9 +378,27 @@ def _m_len(x):
 
 
 def _m_bytes_fromhex(s):
-    if type(s) is SymStr:
-        raise SxUnsupported("bytes.fromhex of symbolic text")
-    return bytes.fromhex(s)
+    if type(s) is not SymStr:
+        return bytes.fromhex(s)
+    vals = []
+    for i, c in enumerate(s.items):
+        if type(c) is int:
+            ch = chr(c)
+            if ch in "0123456789abcdefABCDEF":
+                vals.append(int(ch, 16))
+                continue
+            if ch in " \t\n\r\v\f":
+                raise SxUnsupported("bytes.fromhex: white space inside partly symbolic text")
+            raise ValueError(f"non-hexadecimal number found in fromhex() arg at position {i}")
+        dig, low, up = sand(c >= 48, c <= 57), sand(c >= 97, c <= 102), sand(c >= 65, c <= 70)
+        if not sor(dig, low, up):
+            if sor(c == 32, sand(c >= 9, c <= 13)):
+                raise SxUnsupported("bytes.fromhex: a symbolic character may be white space")
+            raise ValueError(f"non-hexadecimal number found in fromhex() arg at position {i}")
+        vals.append(ite(dig, c - 48, ite(low, c - 87, c - 55)))
+    if len(vals) % 2:
+        raise ValueError(f"non-hexadecimal number found in fromhex() arg at position {len(vals)}")
+    return mk_bytes([(vals[k] << 4) | vals[k + 1] for k in range(0, len(vals), 2)])
 
 
 def _m_compare_digest(a, b):
